@@ -466,6 +466,9 @@ func ruleDrainBeforeExit(r *Run, p *Prog, rule, tname string) {
 		if !isNilConst(pa.Resolve(ret.Results[0])) {
 			continue
 		}
+		if pa.InfeasibleByEval() {
+			continue // e.g. `for !ok && …` left because ok was true, then `if ok` false
+		}
 		nNil++
 		// last TryNext and last isDone on the path
 		lastTry, lastDone := -1, -1
@@ -593,7 +596,7 @@ func ruleCloseOrder(r *Run, p *Prog, rule string) {
 			}
 		}
 		if next == nil || !hasCmp(pa.Cmps(), func(op token.Token, x, y ssa.Value) bool {
-			return x == ssa.Value(next) && isNilConst(y) && op == token.EQL
+			return pa.Resolve(x) == ssa.Value(next) && isNilConst(y) && op == token.EQL
 		}) {
 			okRet = false
 		}
@@ -838,6 +841,7 @@ func ruleAlertWiring(r *Run, p *Prog, rule string) {
 	}
 	// (b)
 	if nm := p.Func(diodesRel, "NewManyToOne"); r.Anchor(nm != nil, rule, "NewManyToOne") {
+		nm = p.View(nm, "", nil) // a private "build the value" helper is part of the constructor
 		var par *ssa.Parameter
 		for _, q := range nm.Params {
 			if _, ok := q.Type().Underlying().(*types.Interface); ok {
